@@ -37,6 +37,8 @@ import Driver.CodeDigest
 import Driver.CodeIter
 import Driver.CodeWrap
 import Driver.ApacheFile
+import Driver.PyUtil
+import Driver.Registry
 /-
 Line protocol driver: `<suite> <op> <args…>` per input line, one result line out.
 Compiled (`lean_exe modeldrv`); nothing imported here touches Mathlib.
@@ -82,6 +84,8 @@ def dispatch (line : String) : String :=
   | "citer" :: rest => Driver.CodeIter.handle rest
   | "cwrap" :: rest => Driver.CodeWrap.handle rest
   | "afile" :: rest => Driver.ApacheFile.handle rest
+  | "putil" :: rest => Driver.PyUtil.handle rest
+  | "preg" :: rest => Driver.Registry.handle rest
   | _ => Driver.bad
 
 partial def loop (h : IO.FS.Stream) (out : IO.FS.Stream) : IO Unit := do
